@@ -486,14 +486,14 @@ class Sim(object):
 
         class_level = cspec.get('classLevel', False)
         if class_level:
-            def execute(cls, script):
+            def execute(cls, script, **service_kwargs):
                 ctx.obj = cls()
                 return sim.run_script(script, {}, ctx.obj, decorated)
             if decorated:
                 execute = tr.class_operation(metadata_extractor=extractor if cspec.get('hasExtractor') else None)(execute)
             ns['execute'] = classmethod(execute)
         else:
-            def execute(self, script):
+            def execute(self, script, **service_kwargs):
                 ctx.obj = self
                 return sim.run_script(script, {}, self, decorated)
             if decorated:
@@ -589,6 +589,11 @@ class Sim(object):
             return [repr(text), None]
 
     @staticmethod
+    def op_kwargs(run):
+        """keyword arguments the service passes to its operation; their NAMES are the service's business (`func`, `args`, ...)"""
+        return dict((k, i) for i, k in enumerate(run.get('opKw') or []))
+
+    @staticmethod
     def _private_len(tr, name):
         """size of a private container of the recorder (0 when a refactoring has renamed it: then only behaviour can tell)"""
         v = getattr(tr, name, None)
@@ -635,7 +640,7 @@ class Sim(object):
                 continue
             if run['run'] == 'op':
                 target = cls if cspec.get('classLevel') else cls()
-                end = self.end_of(lambda: target.execute(script))
+                end = self.end_of(lambda: target.execute(script, **self.op_kwargs(run)))
                 journal = ctx.journal
                 outcomes = ctx.outcomes
                 identity_ok = ctx.identity_ok
@@ -682,7 +687,7 @@ class Sim(object):
                 ctx.outcomes = []
                 twin_cls = self.twins[run['cls']]
                 twin_target = twin_cls if cspec.get('classLevel') else twin_cls()
-                twin_end = self.end_of(lambda: twin_target.execute(script))
+                twin_end = self.end_of(lambda: twin_target.execute(script, **self.op_kwargs(run)))
                 out.append({'end': end, 'journal': journal, 'log': log, 'saved': saved, 'late': late, 'idle': idle, 'drawn': drawn,
                             'twinEnd': twin_end, 'twinJournal': ctx.journal,
                             '_outcomes': outcomes, '_identity_ok': identity_ok, '_recorded_at': recorded_at})
@@ -700,7 +705,7 @@ class Sim(object):
 
                 def playback_function(recording):
                     target = cls if cspec.get('classLevel') else cls()
-                    return target.execute(script)
+                    return target.execute(script, **self.op_kwargs(run))
                 digest_before = self.store_digest()
                 try:
                     pb = tr.play(real, playback_function)
